@@ -27,6 +27,14 @@ def q2f(q):
     from fractions import Fraction
     return float(Fraction(q[0], q[1]))
 
+def _has_div_or_ite(t, depth=0):
+    if depth > 400: return True
+    k = t.decl().kind()
+    if k in (z3.Z3_OP_DIV, z3.Z3_OP_ITE, z3.Z3_OP_UNINTERPRETED) and t.num_args() > 0:
+        if k == z3.Z3_OP_DIV and z3.is_rational_value(t.arg(1)): return _has_div_or_ite(t.arg(0), depth + 1)
+        return True
+    return any(_has_div_or_ite(c, depth + 1) for c in t.children())
+
 def _mk_solver(kind):
     if kind == 'default': return z3.Solver()
     if kind == 'nlsat': return z3.Then('simplify', 'purify-arith', 'qfnra-nlsat').solver()
@@ -35,6 +43,15 @@ def _mk_solver(kind):
 def prove(name, assumptions, claim, timeout_ms=20000, model_vars=None, key=None, detail='', tactic=None, sample=False):
     """discharged iff assumptions AND NOT claim is unsat.  sat -> candidate with a model of model_vars.  unknown -> undecided.
        tactic='nra': portfolio (default solver for a fifth of the budget, then simplify+purify-arith+nlsat) for polynomial/rational identities"""
+    # fast path for polynomial identities: expand lhs - rhs into a sum of monomials with the solver's own simplifier
+    if z3.is_eq(claim) and claim.num_args() == 2 and z3.is_arith(claim.arg(0)) and not _has_div_or_ite(claim.arg(0)) and not _has_div_or_ite(claim.arg(1)):
+        t0 = time.time()
+        try:
+            d = z3.simplify(claim.arg(0) - claim.arg(1), som=True, flat=True)
+            if z3.is_rational_value(d) and d.numerator_as_long() == 0:
+                return ob(name, 'discharged', solver_s=time.time() - t0, key=key, detail=(detail + ' polynomial identity by expansion').strip(), solver='z3/simplify-som',
+                          sample={'obligation': name, 'result': 'lhs - rhs expands to 0', 'solver': 'z3/simplify-som'} if sample else None)
+        except z3.Z3Exception: pass
     plan = [('default', timeout_ms)] if tactic is None else [('nlsat', timeout_ms), ('default', max(2000, timeout_ms // 5))] if tactic == 'nra' else [(tactic, timeout_ms)]
     dt = 0.0; r = z3.unknown; so = None; used = ''
     for kind, tmo in plan:
